@@ -19,3 +19,9 @@ package postprocessor
 //@ func NewAssertResponsePostprocessor
 //@ props C19 C15
 //@ ensures result1 == nil && typeis(result0, *AssertResponse) && result0.(*AssertResponse).StatusCode == cfg.StatusCode && result0.(*AssertResponse).Payload == cfg.Payload
+
+//@ func (e *errAssert) Error
+//@ props C15 C19
+//@ nilsafe
+//@ requires e != nil
+//@ modifies nothing
